@@ -126,6 +126,10 @@ class _Parameter:
 
     def __set__(self, instance, value):
         self._checker(value)
+        if isinstance(value, np.ndarray) and value.dtype.kind in "iu":
+            # an integer field is stored as a float field: unlike python ints, numpy
+            # integers overflow silently (e.g. products of moduli given in Pa).
+            value = value.astype(float)
         instance.__dict__[self.__name] = value
         if isinstance(instance, Updatable):
             instance.Need_Update()
